@@ -1,0 +1,112 @@
+//go:build verif
+// +build verif
+
+package fit
+
+import (
+	"reflect"
+	"time"
+)
+
+// This file is only compiled with the "verif" build tag. It gives external
+// verification harnesses read-only access to the generated profile tables and
+// to the unexported time conversion pair. It does not alter any control flow.
+
+// VerifField is a plain-data copy of a profile lookup table entry.
+type VerifField struct {
+	Mesg   MesgNum
+	Num    byte   // field definition number (index in the table)
+	ENum   byte   // the entry's own num member
+	SIndex int    // struct field index
+	Code   uint16 // raw types.Fit value
+	Kind   byte   // types.Kind
+	Base   byte   // full base type byte (e.g. 0x84 for uint16)
+	Array  bool
+	Length byte
+}
+
+func verifField(m MesgNum, n byte, f *field) VerifField {
+	return VerifField{
+		Mesg:   m,
+		Num:    n,
+		ENum:   f.num,
+		SIndex: f.sindex,
+		Code:   uint16(f.t),
+		Kind:   byte(f.t.Kind()),
+		Base:   byte(f.t.BaseType()),
+		Array:  f.t.Array(),
+		Length: f.length,
+	}
+}
+
+// VerifFields returns every entry of the lookup table in (message, field
+// number) order.
+func VerifFields() []VerifField {
+	var out []VerifField
+	for m := range _fields {
+		for n := 0; n < 256; n++ {
+			if f := _fields[m][n]; f != nil {
+				out = append(out, verifField(MesgNum(m), byte(n), f))
+			}
+		}
+	}
+	return out
+}
+
+// VerifGetField is getField with a plain-data result.
+func VerifGetField(m MesgNum, n byte) (VerifField, bool) {
+	f, ok := getField(m, n)
+	if !ok {
+		return VerifField{}, false
+	}
+	return verifField(m, n, f), true
+}
+
+// VerifKnownMesgNums returns the message numbers for which knownMsgNums is
+// true, and separately the ones present in the map with a false value.
+func VerifKnownMesgNums() (known []MesgNum, falseEntries []MesgNum) {
+	for m, ok := range knownMsgNums {
+		if ok {
+			known = append(known, m)
+		} else {
+			falseEntries = append(falseEntries, m)
+		}
+	}
+	return known, falseEntries
+}
+
+// VerifIsKnown reports knownMsgNums[m].
+func VerifIsKnown(m MesgNum) bool { return knownMsgNums[m] }
+
+// VerifTableLens returns the lengths of the three generated tables.
+func VerifTableLens() (fields, msgTypes, newFuncs int) {
+	return len(_fields), len(msgsTypes), len(newMesgFuncs)
+}
+
+// VerifMesgType returns msgsTypes[m], or nil if out of range / unset.
+func VerifMesgType(m MesgNum) reflect.Type {
+	if int(m) >= len(msgsTypes) {
+		return nil
+	}
+	return msgsTypes[m]
+}
+
+// VerifHasNewFunc reports whether newMesgFuncs has a non-nil entry for m.
+func VerifHasNewFunc(m MesgNum) bool {
+	return int(m) < len(newMesgFuncs) && newMesgFuncs[m] != nil
+}
+
+// VerifMesgAllInvalid is getMesgAllInvalid.
+func VerifMesgAllInvalid(m MesgNum) reflect.Value { return getMesgAllInvalid(m) }
+
+// VerifGlobalMesgNum is getGlobalMesgNum.
+func VerifGlobalMesgNum(t reflect.Type) MesgNum { return getGlobalMesgNum(t) }
+
+// VerifDecodeDateTime is decodeDateTime.
+func VerifDecodeDateTime(dt uint32) time.Time { return decodeDateTime(dt) }
+
+// VerifEncodeTime is encodeTime.
+func VerifEncodeTime(t time.Time) uint32 { return encodeTime(t) }
+
+// VerifTimeBase returns the package's invalid/base time.
+func VerifTimeBase() time.Time { return timeBase }
